@@ -72,6 +72,7 @@
  *  Prototypes
  *****************************************************************************/
 
+static void sanitize_std_fds (void);
 static void disable_core_dumps (void);
 static void daemonize_init (char *progname, conf_t conf);
 static void daemonize_fini (void);
@@ -107,6 +108,7 @@ main (int argc, char *argv[])
     log_priority = LOG_DEBUG;
     log_options |= LOG_OPT_TIMESTAMP;
 #endif /* NDEBUG */
+    sanitize_std_fds ();
     log_open_file (stderr, log_identity, log_priority, log_options);
 
     disable_core_dumps ();
@@ -168,6 +170,28 @@ main (int argc, char *argv[])
     log_close_all ();
 
     exit (EMUNGE_SUCCESS);
+}
+
+
+static void
+sanitize_std_fds (void)
+{
+/*  Ensures stdin, stdout, and stderr are open (on "/dev/null" if need be).
+ *  If munged is started with any of these closed, a descriptor opened later
+ *    (e.g., the lockfile or the socket) would be assigned that number, only to
+ *    be closed when daemonize_fini() redirects them to "/dev/null" -- which
+ *    would silently release the lock held on the lockfile.
+ */
+    int fd;
+
+    do {
+        fd = open ("/dev/null", O_RDWR);
+    } while ((fd >= 0) && (fd <= STDERR_FILENO));
+
+    if (fd > STDERR_FILENO) {
+        (void) close (fd);
+    }
+    return;
 }
 
 
